@@ -17,8 +17,8 @@ from lib import vlib
 from lib.vlib import cq_list, cq_bool
 
 SETUP_BUILDS = [{"name": "c07"}, {"name": "c07", "race": True}]
-COQ_TARGETS = ["Slots/Properties_C07.v", "Slots/Corr.v", "Slots/CorrMM.v", "Slots/Enc.v"]
-HEADER = ("From Coq Require Import List ZArith NArith Bool.\nFrom V Require Import Common.Bytes Slots.StopFns Slots.Model Slots.Corr Slots.ModelMM Slots.CorrMM Slots.Enc.\n"
+COQ_TARGETS = ["Slots/Properties_C07.v", "Slots/Corr.v", "Slots/CorrMM.v", "Slots/Enc.v", "Slots/Wrap.v"]
+HEADER = ("From Coq Require Import List ZArith NArith Bool.\nFrom V Require Import Common.Bytes Slots.StopFns Slots.Model Slots.Corr Slots.ModelMM Slots.CorrMM Slots.Enc Slots.Wrap.\n"
           "Import ListNotations.\nOpen Scope Z_scope.\n")
 
 
@@ -242,6 +242,59 @@ def gen_enc_case(rng):
     return {"op": "hist", "cfg": cfg, "ops": ops, "drain": 40, "fresh": True, "freshsteps": 60, "klass": "encoder"}
 
 
+def gen_wrap_case(rng):
+    """a wrapper of caches (gemma2/gemma3: sliding window for the local layers + causal for the global layers; also two
+    windows, and the causal cache first).  Core scenario: a long first request (runs past the shared prefix by more than
+    the window), then a request that shares only the short prefix, on the same slot or on a slot the prefix is forked into."""
+    w = rng.choice([1, 2, 4, 8])
+    r = rng.random()
+    wrap = [w, 0] if r < 0.6 else ([w, rng.choice([1, 2, 4, 8])] if r < 0.85 else [0, w])
+    parallel = rng.choice([1, 1, 2, 2, 3])
+    numctx = rng.choice([8, 12, 16, 24])
+    vocab = rng.choice([3, 4, 6])
+    multi = rng.random() < 0.6
+    cfg = {"parallel": parallel, "kv": parallel * numctx, "batch": rng.choice([1, 2, 3, 4, 8]), "vocab": vocab, "eos": -1, "multi": multi,
+           "shift": rng.random() < 0.9, "partial": rng.random() < 0.9, "resume": True, "pad": rng.choice([1, 1, 4]), "maskpad": 1, "wrap": wrap}
+    wmax = max(x for x in wrap if x > 0)
+    sysp = rnd_toks(rng, vocab, rng.randint(1, 4))
+    ops = []
+
+    def keep():
+        return rng.choice([0] * 12 + [1, len(sysp), -1])
+
+    def run(n=None):
+        ops.extend([{"t": "step"}] * (n if n is not None else numctx + 4))
+    nreq = 0
+    for rnd in range(rng.randint(1, 3)):
+        # long request: the shared prefix + its own turn, generating more than the window
+        conv = rnd_toks(rng, vocab, rng.randint(0, 3))
+        long_n = rng.choice([wmax + 1, wmax + 2, wmax + 4, 2 * wmax + 1, numctx])
+        ops.append({"t": "submit", "prompt": sysp + conv, "npred": long_n, "keep": keep()})
+        nreq += 1
+        if parallel > 1 and rng.random() < 0.3:
+            run(rng.randint(1, 3))               # the second request arrives while the first is still running
+        else:
+            run(long_n + 4)
+        # short shared prefix, different conversation: same slot, or (multi-user policy, a free older slot) a fork
+        for _ in range(rng.randint(1, 2)):
+            q = rng.random()
+            if q < 0.6:
+                pr = sysp + rnd_toks(rng, vocab, rng.randint(1, 3))
+            elif q < 0.75:
+                pr = sysp[:rng.randint(1, len(sysp))] + rnd_toks(rng, vocab, rng.randint(0, 2))
+            elif q < 0.9:
+                ops.append({"t": "submit", "cont": rng.randrange(nreq), "extra": rnd_toks(rng, vocab, rng.randint(1, 2)), "npred": rng.choice([1, 2, wmax + 2]), "keep": keep()})
+                nreq += 1
+                run(rng.choice([None, 2]))
+                continue
+            else:
+                pr = sysp + conv
+            ops.append({"t": "submit", "prompt": pr or sysp, "npred": rng.choice([1, 2, 3, wmax + 2]), "keep": keep()})
+            nreq += 1
+            run(rng.choice([None, None, 2]))
+    return {"op": "hist", "cfg": cfg, "ops": ops, "drain": 40, "fresh": True, "freshsteps": 80, "klass": "wrapper"}
+
+
 CORPUS = [
     # fork a prefix into the second slot, overflow the fork: the shift fails on shared cells (the C07 defect)
     {"op": "hist", "cfg": {"parallel": 2, "kv": 16, "batch": 8, "vocab": 6, "eos": -1, "multi": True, "shift": True},
@@ -274,6 +327,8 @@ def gen_cases(ctx):
         cases.append(gen_mm_case(rng))
     for _ in range(60 if ctx.quick() else 1200):
         cases.append(gen_enc_case(rng))
+    for _ in range(90 if ctx.quick() else 1800):
+        cases.append(gen_wrap_case(rng))
     return cases
 
 
@@ -315,6 +370,7 @@ def monitor_case(c, o):
     owner = {}      # seq entry -> request
     prev = None
     gen = {}        # request -> sampled tokens
+    genvis = {}     # request -> per sampled token, per layer type: the history that layer type's cache exposed
     text = {}
     done = {}
     for k, e in enumerate(o.get("trace", [])):
@@ -338,31 +394,35 @@ def monitor_case(c, o):
         cells = e["cells"]
         if len(cells) > par:
             out.append(({"class": "slot-cache-mismatch", "how": "foreign-sequence"}, "operation %d: the cache holds a sequence id outside the slots: %s" % (k, cells[par:])))
-        win = c["cfg"].get("window", 0)
-        for i, s in enumerate(st["slots"]):
-            want = [[j, t, j] for j, t in enumerate(s["inputs"])]
-            have = cells[i]
-            if win > 0:
-                # a sliding-window cache keeps a suffix of the record: every stored cell must agree with the record, no
-                # position twice, and a slot in use must hold the whole window of the next position
-                n = len(want)
-                agree = all((x in want) if x[0] < n else (not s["inuse"]) for x in have) and len(set(x[0] for x in have)) == len(have)
-                if not agree:
-                    out.append(({"class": "slot-cache-mismatch", "how": "stale"},
-                                "operation %d: slot %d records inputs %s but the (sliding-window) cache holds [pos,tok,kpos] %s" % (k, i, s["inputs"], have)))
-                elif s["inuse"] and not set(range(max(0, n - win), n)) <= set(x[0] for x in have):
-                    out.append(({"class": "window-incomplete"},
-                                "operation %d: slot %d is in use with %d recorded inputs but the window (%d) before the next position is not stored: positions %s"
-                                % (k, i, n, win, sorted(x[0] for x in have))))
-                continue
-            if s["inuse"]:
-                okc = have == want
-            else:
-                # an idle slot may keep cells at positions beyond its record (stop-trim); LoadCacheSlot erases them before use
-                okc = [x for x in have if x[0] < len(want)] == want and all(x[0] >= len(want) for x in have[len(want):])
-            if not okc:
-                out.append(({"class": "slot-cache-mismatch", "how": "stale" if len(have) > len(want) else "missing"},
-                            "operation %d: slot %d records inputs %s but the cache holds [pos,tok,kpos] %s" % (k, i, s["inputs"], have)))
+        wins = c["cfg"].get("wrap") or [c["cfg"].get("window", 0)]
+        cells_all = e.get("cellst") or [cells]
+        for comp, (win, cells) in enumerate(zip(wins, cells_all)):
+            lay = " [wrapped cache %d, window %d]" % (comp, win) if len(wins) > 1 else ""
+            for i, s in enumerate(st["slots"]):
+                want = [[j, t, j] for j, t in enumerate(s["inputs"])]
+                have = cells[i]
+                if win > 0:
+                    # a sliding-window cache keeps a suffix of the record: every stored cell must agree with the record, no
+                    # position twice, and a slot in use must hold the whole window of the next position
+                    n = len(want)
+                    agree = all((x in want) if x[0] < n else (not s["inuse"]) for x in have) and len(set(x[0] for x in have)) == len(have)
+                    if not agree:
+                        out.append(({"class": "slot-cache-mismatch", "how": "stale"},
+                                    "operation %d: slot %d records inputs %s but the (sliding-window) cache holds [pos,tok,kpos] %s%s" % (k, i, s["inputs"], have, lay)))
+                    elif s["inuse"] and not set(range(max(0, n - win), n)) <= set(x[0] for x in have):
+                        out.append(({"class": "window-incomplete"},
+                                    "operation %d: slot %d is in use with %d recorded inputs but the window (%d) before the next position is not stored: positions %s%s"
+                                    % (k, i, n, win, sorted(x[0] for x in have), lay)))
+                    continue
+                if s["inuse"]:
+                    okc = have == want
+                else:
+                    # an idle slot may keep cells at positions beyond its record (stop-trim); LoadCacheSlot erases them before use
+                    okc = [x for x in have if x[0] < len(want)] == want and all(x[0] >= len(want) for x in have[len(want):])
+                if not okc:
+                    out.append(({"class": "slot-cache-mismatch", "how": "stale" if len(have) > len(want) else "missing"},
+                                "operation %d: slot %d records inputs %s but the cache holds [pos,tok,kpos] %s%s" % (k, i, s["inputs"], have, lay)))
+        cells = e["cells"]
         # --- what the model was given
         for f in e["fwd"]:
             slot_req = {}
@@ -370,15 +430,17 @@ def monitor_case(c, o):
                 for qi, q in enumerate(prev["seqs"]):
                     if q is not None and qi in owner:
                         slot_req[q["slot"]] = owner[qi]
-            for j in range(len(f["toks"])):
-                s, p, vis = f["seqs"][j], f["pos"][j], f["vis"][j]
-                rec = st["slots"][s]["inputs"] if s < len(st["slots"]) else []
-                lo = max(0, p - win) if win > 0 else 0
-                okv = [v[0] for v in vis] == list(range(lo, p + 1)) and vis[p - lo][1] == f["toks"][j] and \
-                    all(vis[x - lo][1] == rec[x] for x in range(lo, min(len(rec), p + 1)))
-                if not okv:
-                    out.append(({"class": "foreign-history"}, "operation %d: batch entry %d (seq %d, pos %d, token %d) attended to [kpos,tok] %s; recorded inputs %s"
-                                % (k, j, s, p, f["toks"][j], vis, rec)))
+            vis_all = f.get("vist") or [f["vis"]]
+            for comp, (win, visl) in enumerate(zip(wins, vis_all)):
+                for j in range(len(f["toks"])):
+                    s, p, vis = f["seqs"][j], f["pos"][j], visl[j]
+                    rec = st["slots"][s]["inputs"] if s < len(st["slots"]) else []
+                    lo = max(0, p - win) if win > 0 else 0
+                    okv = [v[0] for v in vis] == list(range(lo, p + 1)) and vis[p - lo][1] == f["toks"][j] and \
+                        all(vis[x - lo][1] == rec[x] for x in range(lo, min(len(rec), p + 1)))
+                    if not okv:
+                        out.append(({"class": "foreign-history"}, "operation %d: batch entry %d (seq %d, pos %d, token %d) attended to [kpos,tok] %s%s; recorded inputs %s"
+                                    % (k, j, s, p, f["toks"][j], vis, " in layer type %d (window %d)" % (comp, win) if len(wins) > 1 else "", rec)))
             # encoder mode: the cross-attention input is the most recent image of the effective input, or nothing
             if c["cfg"].get("encoder") and f["toks"]:
                 rec = st["slots"][0]["inputs"]
@@ -408,6 +470,8 @@ def monitor_case(c, o):
                 r = slot_req.get(f["seqs"][bi])
                 if r is not None:
                     gen.setdefault(r, []).append(f["chosen"][oi])
+                    if f.get("vist"):
+                        genvis.setdefault(r, []).append([vt[bi] for vt in f["vist"]])
         for rk, rv in e["resp"].items():
             text.setdefault(int(rk), []).extend(rv["pieces"] or [])
             if rv["closed"]:
@@ -420,6 +484,14 @@ def monitor_case(c, o):
     for r, fr in enumerate(o.get("fresh", [])):
         if not isinstance(fr, dict) or fr.get("kind") != "" or "panic" in fr:
             continue
+        # per layer type: what each wrapped cache exposed for the sampled tokens (first difference only)
+        for n, (a, b) in enumerate(zip(genvis.get(r, []), fr.get("outvis") or [])):
+            d = [t for t in range(min(len(a), len(b))) if a[t] != b[t]]
+            if d:
+                out.append(({"class": "layer-differs-from-fresh"},
+                            "request %d, sampled token %d: layer type %d (window %d) saw [kpos,tok] %s; alone on a fresh runner it sees %s"
+                            % (r, n, d[0], (c["cfg"].get("wrap") or [0])[d[0]], a[d[0]], b[d[0]])))
+                break
         g, fg = gen.get(r, []), fr.get("chosen") or []
         m = min(len(g), len(fg))
         t, ft = "".join(text.get(r, [])), "".join(fr.get("pieces") or [])
@@ -459,6 +531,11 @@ def render_cfg(cfg, numctx, ncells=-1):
     return "(mkCfg %d %d %s %s %s %s (%d) %s (%d))" % (numctx, cfg["batch"], cq_bool(cfg["multi"]), cq_bool(cfg.get("shift", True)),
                                                        cq_bool(cfg.get("partial", True)), cq_bool(cfg.get("resume", True)), cfg.get("eos", -1),
                                                        "(Some %d)" % w if w > 0 else "None", ncells)
+
+
+def render_cfgs(c, o):
+    """one configuration per wrapped cache: its window and the number of cells its Init allocated"""
+    return cq_list([render_cfg(dict(c["cfg"], window=w), o["numctx"], nc) for w, nc in zip(c["cfg"]["wrap"], o.get("ncellst") or [])], "config")
 
 
 def render_op(c, e):
@@ -505,6 +582,12 @@ def attach_ops(c, o):
 def render(c, o):
     attach_ops(c, o)
     trace = o["trace"]       # a step on which StartForward found no room is predicted by the model too (RCacheFull)
+    if c["cfg"].get("wrap"):
+        def cells_t(e):
+            return cq_list([cq_list([cq_list(["((%d), (%d))" % (x[0], x[1]) for x in row], "(Z * tok)") for row in comp], "(list (Z * tok))")
+                            for comp in e["cellst"]], "(list (list (Z * tok)))")
+        tr = cq_list(["(%s, %s, %s)" % (render_op(c, e), render_obs(e), cells_t(e)) for e in trace], "(op * obs * list (list (list (Z * tok))))")
+        return "chk_trace_w %d %s %d%%nat %s" % (c["cfg"]["vocab"], render_cfgs(c, o), c["cfg"]["parallel"], tr)
     if c["cfg"].get("encoder"):
         tr = cq_list(["(%s, %s, %s)" % (render_op(c, e), render_obs(e), "(Some (%d))" % e["enc"][0] if e.get("enc") else "None") for e in trace], "(op * obs * option Z)")
         return "chk_trace_enc %d %s %s" % (c["cfg"]["vocab"], render_cfg(c["cfg"], o["numctx"], o.get("ncells", -1)), tr)
@@ -516,6 +599,8 @@ def render(c, o):
 def model_term(c, o):
     attach_ops(c, o)
     ops = cq_list([render_op(c, e) for e in o["trace"]], "op")
+    if c["cfg"].get("wrap"):
+        return "model_trace_w %d %s %d%%nat %s" % (c["cfg"]["vocab"], render_cfgs(c, o), c["cfg"]["parallel"], ops)
     if c["cfg"].get("encoder"):
         return "model_trace_enc %d %s %s" % (c["cfg"]["vocab"], render_cfg(c["cfg"], o["numctx"], o.get("ncells", -1)), ops)
     fn = "model_trace_mm" if c.get("klass") == "multimodal" else "model_trace"
@@ -790,7 +875,9 @@ def features(c, o):
         sig.update({"encoder": True,
                     "multi_image": any(sum(1 for t in sl["inputs"] if t >= 1000) >= 2 for e in tr for sl in e["state"]["slots"]),
                     "cross_lost_only": hows == {"lost"}})
-    win = c["cfg"].get("window", 0)
+    win = max(c["cfg"].get("wrap") or [c["cfg"].get("window", 0)])
+    if c["cfg"].get("wrap"):
+        sig["wrapper"] = True
     if win > 0:
         nctx = o.get("numctx", 0)
         kept = any(min(len(e["prompt"] or []) if x.get("keep", 0) < 0 else x.get("keep", 0), nctx - 1) > 0
@@ -811,15 +898,19 @@ def run(ctx):
                 "prefixes, repeat exactly, continue an earlier conversation, diverge, exceed the context; generations overflow the context; stop sequences; "
                 "cross-attention models (WrapperCache(EncoderCache, Causal), one slot): an image behind a prefix longer than a batch or behind a cached prefix, "
                 "then slot reuse with prefixes ending before / at / after the image and context shifts; "
+"wrappers of caches (sliding window + causal as gemma2/gemma3, two windows, causal first; windows 1,2,4,8; 1-3 slots): a long first "
+                "request (runs past the shared prefix by more than the window), then requests sharing only the short prefix on the same or a forked slot; "
                 "non-trivial = at least one Forward happened and a slot was reused, forked or shifted; distinct = by canonical JSON of the case")
     ctx.trusted = ["Coq 8.16.1 kernel + vm_compute", "hand-written model coq/Slots/Model.v tied to the code by this differential run only",
                    "harness/cmd/c07 (in-memory ml backend, scripted model, driver) and the add-only overlay exports c07.go in runner/ollamarunner, model, kvcache; "
                    "VerifSubmit copies the 12-line slot-assignment block of (*Server).completion",
                    "python generator and monitor (props/c07.py)"]
     ctx.assumptions = ["theorems: context size per slot >= 1 (NewInputCache refuses less); every other parameter, the network F and the history are universally quantified",
-                       "theorems: text-only inputs; multimodal SameBatch groups (Slots/ModelMM.v) and the encoder cache of cross-attention models (Slots/Enc.v) are modelled, compared on every run and monitored, not proved", "theorems over histories: no sliding window (window cfg = None); sliding-window caches are modelled, compared and monitored but not proved",
+                       "theorems: text-only inputs; multimodal SameBatch groups (Slots/ModelMM.v) and the encoder cache of cross-attention models (Slots/Enc.v) are modelled, compared on every run and monitored, not proved",
+                       "wrapper of caches (Slots/Wrap.v): slot = cache is proved per wrapped cache over histories (C07_wrapper_slot_matches_every_cache); that all components carry the same "
+                       "slot records is compared on every run (chk_from_w), not proved; the log-level theorems (effective input, same as fresh) are not lifted to the product", "theorems over histories: no sliding window (window cfg = None); sliding-window caches are modelled, compared and monitored but not proved",
                        "requests are not cancelled mid-generation", "the network is any function of the history the cache exposes (harness: a hash; theorems: a Section variable)"]
-    ctx.proof_stage(["Slots"], "Slots/Properties_C07.v", extra_targets=["Slots/Corr.v", "Slots/CorrMM.v", "Slots/Enc.v"])
+    ctx.proof_stage(["Slots"], "Slots/Properties_C07.v", extra_targets=["Slots/Corr.v", "Slots/CorrMM.v", "Slots/Enc.v", "Slots/Wrap.v"])
     if not ctx.quick():
         ctx.coqchk(["V.Slots.Properties_C07"])
     binp = ctx.go_build("c07")
@@ -876,6 +967,16 @@ def run(ctx):
                 if e["t"] == "step" and pe.get("enc") and shifted and any(len(b["inputs"]) < len(a["inputs"]) and b["inuse"]
                                                                             for a, b in zip(pe["state"]["slots"], e["state"]["slots"])):
                     ctx.count("enc-shift-image-moved" if e.get("enc") else "enc-shift-image-dropped")
+        if c["cfg"].get("wrap"):
+            for e, pe in zip(tr[1:], tr):
+                if e["t"] == "submit" and e["res"]["kind"] == "":
+                    sl = e["state"]["seqs"][e["res"]["idx"]]["slot"]
+                    before = max(len(x["inputs"]) for x in pe["state"]["slots"])
+                    kept = len(e["state"]["slots"][sl]["inputs"])
+                    if before > 0:
+                        ctx.count("wrap-reuse-resumed" if kept > 0 else "wrap-reuse-refused-or-no-prefix")
+                    if pe["state"]["slots"][sl]["inputs"] == [] and kept > 0:
+                        ctx.count("wrap-reuse-forked-slot")
         nstop = sum(1 for e in tr for rv in e["resp"].values() if rv.get("reason") == "stop")
         if nstop:
             ctx.count("requests-ended-by-stop-or-eos", nstop)
